@@ -92,6 +92,9 @@ class FileHeaderConfig:
     # Enforce atemporal language checking
     enforce_atemporal: bool = True
 
+    # Documented on/off switch
+    enabled: bool = True
+
     # Patterns to ignore (file paths)
     ignore: list[str] = field(
         default_factory=lambda: ["test/**", "**/migrations/**", "**/__init__.py"]
@@ -122,6 +125,7 @@ class FileHeaderConfig:
                 required_fields_css=required_fields,
                 enforce_atemporal=config_dict.get("enforce_atemporal", True),
                 ignore=config_dict.get("ignore", defaults.ignore),
+                enabled=config_dict.get("enabled", True),
             )
 
         # Dict format: language-specific fields
@@ -137,4 +141,5 @@ class FileHeaderConfig:
             required_fields_css=required_fields.get("css", defaults.required_fields_css),
             enforce_atemporal=config_dict.get("enforce_atemporal", True),
             ignore=config_dict.get("ignore", defaults.ignore),
+            enabled=config_dict.get("enabled", True),
         )
